@@ -28,6 +28,12 @@ CONTROLS = [
     ("Buggy_StaleHash_imm", "property", "Immutable"),
     ("Buggy_CopyKeepsHash", "invariant", "HashRespectsEq"),
     ("Buggy_NaNIdentity", "invariant", "EqIsPyEq"),
+    # round 2: class-level state looked up through the base classes; a cached hash that
+    # crosses a pickle into another interpreter
+    ("Buggy_ClassMemo", "invariant", "EqIsPyEq"),
+    ("Buggy_ClassMemo_dict", "invariant", "DictFindsEqual"),
+    ("Buggy_PickleKeepsHash", "invariant", "EqIsPyEq"),
+    ("Buggy_PickleKeepsHash_dict", "invariant", "DictFindsEqual"),
 ]
 
 
@@ -84,6 +90,8 @@ def signature(v):
             sig["differ"] = sorted(v["neq"])
         if clause in ("HashRespectsEq",):
             sig["op"] = v["op"]
+        if v.get("via"):
+            sig["via"] = sorted(v["via"])
         return sig
     return {"clause": clause, "op": v["op"], "cls": v["ci"], "md": v.get("md", "")}
 
@@ -250,12 +258,21 @@ def run(tier, seed, out):
     pairs_txt = ("every near pair (each catalogue member with its separately built twin, with its "
                  "family's base instance and with its next two neighbours) x every history of length 2 "
                  "over the pair alphabet {Eq12, Eq21, Hash2, Put1, Get2}; 14 representative pairs + 3 "
-                 "triples x every history of length 2 over the full alphabet (~33 operations)"
+                 "triples x every history of length 2 over the full alphabet (~34 operations); 20 tuples "
+                 "over three-level class hierarchies (ancestor instances + two leaf instances) x every "
+                 "history of length 2 over hash/==/dict put/dict get on every object (every order of first "
+                 "use of the classes; every trace starts from a pristine interpreter state); every "
+                 "catalogue member with its twin x 4 ways of arriving from another interpreter process "
+                 "(unpickled; hashed / nested nodes hashed / untouched before pickling there) x 1 "
+                 "operation, 28 representative pairs x the same x 2 operations"
                  if tier == "quick" else
                  "every unordered pair inside each catalogue family x every history of length 2, every "
                  "near pair x every history of length 3 over the pair alphabet; 24 representative pairs "
-                 "+ 8 triples x every history of length 2 over the full alphabet")
-    out.rule = ("TLC enumerates (C01_Gen over the 240-object catalogue in 19 families): " + pairs_txt +
+                 "+ 8 triples x every history of length 2 over the full alphabet; 20 class-hierarchy "
+                 "tuples x every history of length 3 over hash/==/put/get on every object; cross-"
+                 "interpreter arrival (4 ways) of every twin pair x 2 operations, every near pair x 1, "
+                 "28 representative pairs x 2")
+    out.rule = ("TLC enumerates (C01_Gen over the 276-object catalogue in 22 families): " + pairs_txt +
                 "; plus seeded -simulate random walks of 8 operations from any family pair/triple. "
                 "A case is one history (New events + operations), replayed on fresh objects; "
                 "non-trivial = at least one operation after construction; distinct by canonical JSON "
@@ -274,11 +291,13 @@ def run(tier, seed, out):
                 clss[e["spec"]["cls"]] = clss.get(e["spec"]["cls"], 0) + 1
     out.extra["events_by_operation"] = ops
     out.extra["objects_by_class"] = clss
-    out.extra["sweeps"] = {s: sum(1 for c in cases if c["sweep"] == s) for s in ("pairs", "near", "deep", "deepq", "sim")}
+    out.extra["sweeps"] = {s: sum(1 for c in cases if c["sweep"] == s) for s in ("pairs", "near", "deep", "deepq", "hier", "xtwin", "xnear", "xdeep", "sim")}
     out.assumptions += [
         "CPython semantics of ==/hash on tuples, numbers, str, mappings as transcribed in C01_Values.tla",
         "default interpreter mode (__debug__ true); python -O is out of scope as the statement says",
-        "bounded: catalogue of 240 object specifications in 19 families, histories of the stated lengths",
+        "bounded: catalogue of 276 object specifications in 22 families, histories of the stated lengths",
+        "cross-interpreter arrival: only ==/hash/dict behaviour of the unpickled object is judged here, "
+        "whether and how faithfully an expression pickles is C17 (a failed pickle is SKIP)",
         "float NaN constants and values the driver cannot serialise are out of model (SKIP)",
     ]
     kit.log(f"C01: total {time.time() - t0:.1f}s")
